@@ -1,5 +1,6 @@
 // C02 — uplink decoding: good packets delivered in order once, bad-CRC packets dropped.
 #include "common.h"
+#include "cfggen.h"
 
 namespace {
 
@@ -26,14 +27,54 @@ struct C02 : Prop {
 		return m;
 	}
 
+	// normal mode: error-class messages (MSG_SYS_ERROR, MSG_NODE_NA, MSG_FEATURE_NA, MSG_LC_NA) surface in the error queue; a reader thread
+	// polls bidib_read_error_message while the packets (good ones and corrupted copies) arrive - in stream order, each exactly once
+	J generate_error_class(Rng &r, const std::string &tier) {
+		J plan = J::obj();
+		auto tree = pc::gen_tree(r, 3);
+		cfg::install(plan, cfg::bare_world(tree), r);
+		J se = cfg::normal_session(0, 0);
+		J phs = J::arr();
+		{ J ph = J::obj(); J pre = J::arr(); for (const char *q : {"read", "read_err", "read_intern"}) { J d = J::obj(); d.set("op", "drain"); d.set("q", q); pre.push(d); } ph.set("pre", pre); ph.set("err_begin", true); J post = J::arr(); post.push("quiesce"); ph.set("post", post); phs.push(ph); }
+		J ph = J::obj(); J ev = J::arr(); int t = 0;
+		for (int k = 0, n = (int) r.range(3, tier == "thorough" ? 40 : 20); k < n; k++) {
+			ref::Msg m; m.addr = tree[r.below(tree.size())].addr; m.seq = r.byte();
+			static const uint8_t et[] = {MSG_SYS_ERROR, MSG_NODE_NA, MSG_FEATURE_NA, MSG_LC_NA};
+			m.type = et[r.below(4)];
+			if (m.type == MSG_SYS_ERROR) m.data = {(uint8_t) (r.coin() ? 0x00 : 0x21), (uint8_t) k}; else if (m.type == MSG_LC_NA) m.data = {(uint8_t) k, cat::edge_byte(r)}; else m.data = {(uint8_t) k};
+			if (m.type == MSG_SYS_ERROR) m.data = {0x02, (uint8_t) k};     // BIDIB_ERR_CRC with the message number as parameter: unique per message
+			std::vector<uint8_t> bytes = ref::frame_msgs({m});
+			const char *inj = nullptr;
+			if (r.chance(250)) { size_t pos = 1 + (size_t) r.below(bytes.size() - 2); bytes[pos] ^= (uint8_t) (1u << r.below(8)); inj = "bit-flip"; }
+			J e = J::obj(); t += (int) r.range(0, 2) * 5000; e.set("at_us", t); e.set("raw", hex_of(bytes)); if (inj) e.set("inj", inj); ev.push(e);
+		}
+		ph.set("bus", ev);
+		J ops = J::arr();
+		for (int i = 0, n = (int) r.range(4, 30); i < n; i++) { J o = J::obj(); if (r.chance(650)) o.set("op", "read_err"); else { o.set("op", "sleep"); o.set("us", 5000); } ops.push(o); }
+		J tasks = J::arr(); tasks.push(ops); ph.set("tasks", tasks);
+		J post = J::arr(); post.push("quiesce_noflush"); ph.set("post", post); phs.push(ph);
+		{ J rp = J::obj(); J pre = J::arr(); J d = J::obj(); d.set("op", "drain"); d.set("q", "read_err"); pre.push(d); rp.set("pre", pre); J post2 = J::arr(); post2.push("quiesce_noflush"); rp.set("post", post2); phs.push(rp); }
+		se.set("phases", phs);
+		J ss = J::arr(); ss.push(se); plan.set("sessions", ss);
+		plan.set("sched", sched_json(r, tier, 2, true));
+		plan.set("error_class", true); plan.set("loopback", false);
+		return plan;
+	}
+
 	J generate(Rng &r, const std::string &tier, uint64_t) override {
 		bool thorough = tier == "thorough";
 		J plan = J::obj();
 		J bus = J::obj(); bus.set("nodes", J::arr()); bus.set("auto_answer", false);
 		plan.set("bus", bus);
+		if (r.chance(130)) return generate_error_class(r, tier);
+		bool loop = r.chance(200);
+		// restart: a second session in the same process; the first one ends in the middle of a packet (the framing state of the receiver
+		// must not survive bidib_stop)
+		int nsess = (!loop && r.chance(200)) ? 2 : 1;
+		J ss = J::arr();
+		for (int sess = 0; sess < nsess; sess++) {
 		J se = pc::debug_session(0);
 		J phs = J::arr();
-		bool loop = r.chance(200);
 		std::map<uint32_t, int> used;      // response budget charged per node over the whole session (nothing is answered: no message may ever be deferred)
 		std::map<uint32_t, int> seqs;      // sequence number the library will use next for a node (loop-back plans: one task, debug mode)
 		int nph = (int) r.range(1, thorough ? 4 : 2);
@@ -132,8 +173,21 @@ struct C02 : Prop {
 			J post2 = J::arr(); post2.push("quiesce_noflush"); rp.set("post", post2);
 			phs.push(rp);
 		}
+		if (nsess == 2 && sess == 0) {
+			// the line goes quiet in the middle of a packet: delimiter, some payload bytes (possibly ending in an escape byte), no end
+			J ph = J::obj(); J ev = J::arr();
+			ref::Msg m = rnd_msg(r); std::vector<uint8_t> bytes = ref::frame_msgs({m});
+			bytes.resize((size_t) r.range(2, (long) bytes.size() - 1));
+			if (r.chance(300)) bytes.push_back(0xFD);
+			J e = J::obj(); e.set("at_us", 0); e.set("raw", hex_of(bytes)); e.set("inj", "truncated");
+			ev.push(e); ph.set("bus", ev);
+			J post = J::arr(); post.push("quiesce_noflush"); ph.set("post", post);
+			phs.push(ph);
+		}
 		se.set("phases", phs);
-		J ss = J::arr(); ss.push(se); plan.set("sessions", ss);
+		ss.push(se);
+		}
+		plan.set("sessions", ss);
 		plan.set("sched", sched_json(r, tier, 1, true));
 		plan.set("loopback", loop);
 		return plan;
@@ -142,19 +196,33 @@ struct C02 : Prop {
 	size_t ops_seen = 0, good_after_bad = 0, frames_good = 0, frames_bad = 0, frames_unspec = 0, escaped_crc = 0, multi = 0;
 	std::vector<std::vector<uint8_t>> got;
 
-	void attach(Engine &) override { ops_seen = 0; good_after_bad = frames_good = frames_bad = frames_unspec = escaped_crc = multi = 0; got.clear(); }
+	void attach(Engine &) override { err_armed = false; sim::lockset_arm(false); d_from = g_from = sessions_judged = 0; ops_seen = 0; good_after_bad = frames_good = frames_bad = frames_unspec = escaped_crc = multi = 0; got.clear(); }
 
 	void after_op(Engine &e, OpRec &o) override {
 		const std::string &k = o.op->gets("op");
+		if (e.plan.getb("error_class")) { if (k == "read_err" && o.has_bytes && err_armed) got.push_back(o.bytes); return; }
 		if (k == "read" && o.has_bytes) got.push_back(o.bytes);
 		if ((k == "read_err" || k == "read_intern") && o.has_bytes)
 			e.violate("WRONG_QUEUE", k, "debug mode: a message surfaced in the " + k + " queue: " + hex_of(o.bytes));
 	}
 
-	void at_end(Engine &e) override {
-		if (e.plan.getb("loopback")) check_loopback(e);
+	size_t d_from = 0, g_from = 0, sessions_judged = 0;
+	bool err_armed = false;
+	void on_session_start(Engine &e, int, int ret) override { d_from = e.bus.delivered.size(); g_from = got.size(); if (e.plan.getb("error_class")) sim::lockset_arm(ret == 0); }
+	void before_stop(Engine &, int) override { sim::lockset_arm(false); }
+	void at_quiescence(Engine &e, int s, int p) override {
+		// error-class plans: judged from the end of the initial drain on (start-up traffic is not part of the stream under test)
+		if (e.plan.getb("error_class") && e.plan["sessions"][(size_t) s]["phases"][(size_t) p].getb("err_begin")) { err_armed = true; d_from = e.bus.delivered.size(); g_from = got.size(); }
+	}
+	void on_session_stop(Engine &e, int) override { judge(e); sessions_judged++; d_from = e.bus.delivered.size(); g_from = got.size(); }
+	void at_end(Engine &e) override { if (e.plan.getb("loopback")) check_loopback(e); }
+
+	// one session: the bytes delivered to this session's receiver, decoded from a fresh framing state, against what this session's reads returned
+	void judge(Engine &e) {
 		bool open = false;
-		std::vector<ref::Frame> fs = ref::decode_stream(e.bus.delivered, 255, &open);
+		std::vector<uint8_t> delivered(e.bus.delivered.begin() + (long) d_from, e.bus.delivered.end());
+		std::vector<std::vector<uint8_t>> got(this->got.begin() + (long) g_from, this->got.end());
+		std::vector<ref::Frame> fs = ref::decode_stream(delivered, 255, &open);
 		std::vector<Tok> toks;
 		bool prev_bad = false;
 		for (auto &f : fs) {
@@ -163,7 +231,11 @@ struct C02 : Prop {
 				if (prev_bad) good_after_bad++;
 				if (f.crc_escaped) escaped_crc++;
 				if (f.msgs.size() > 1) multi++;
-				for (auto &m : f.msgs) { if (m.type == MSG_STALL) continue; toks.push_back(Tok{false, m.raw}); }
+				for (auto &m : f.msgs) {
+					if (m.type == MSG_STALL) continue;
+					if (e.plan.getb("error_class") && m.type != MSG_SYS_ERROR && m.type != MSG_NODE_NA && m.type != MSG_FEATURE_NA && m.type != MSG_LC_NA) continue;
+					toks.push_back(Tok{false, m.raw});
+				}
 				prev_bad = false;
 			} else if (f.cls == ref::BAD_CRC) { frames_bad++; prev_bad = true; }
 			else { frames_unspec++; prev_bad = true; if (toks.empty() || !toks.back().wild) toks.push_back(Tok{true, {}}); }
@@ -220,7 +292,7 @@ struct C02 : Prop {
 		J p = J::obj();
 		p.set("frames_good", (long long) frames_good); p.set("frames_bad_crc", (long long) frames_bad); p.set("frames_unspecified", (long long) frames_unspec);
 		p.set("good_after_corrupted", (long long) good_after_bad); p.set("crc_escaped", (long long) escaped_crc); p.set("multi_message_frames", (long long) multi);
-		p.set("messages_read", (long long) got.size()); p.set("loopback_runs", e.plan.getb("loopback") ? 1 : 0);
+		p.set("messages_read", (long long) got.size()); p.set("loopback_runs", e.plan.getb("loopback") ? 1 : 0); p.set("sessions_after_a_truncated_packet", e.plan["sessions"].size() > 1 ? 1 : 0); p.set("error_class_runs_normal_mode", e.plan.getb("error_class") ? 1 : 0);
 		p.set("loopback_downlink_packets_with_escaped_crc", (long long) e.bus.dec.crc_escapes);
 		f.set("probes", p);
 	}
